@@ -351,7 +351,10 @@ class PathRunner(object):
                 events.append(ev)
                 if val is not None:
                     for sa in saveas:
-                        if not lay.get("allvias") and ((kind, sa) in did or (sa != "none" and self.rng.randrange(4))):
+                        # every save_as form for paths with several '..' (the ones destinations depend on),
+                        # a seeded sample for the rest
+                        if not lay.get("allvias") and path.count("..") < 2 and (
+                                (kind, sa) in did or (sa != "none" and self.rng.randrange(4))):
                             continue
                         did.add((kind, sa))
                         events.append(self.persist(tree, lay, path, val, sa, via))
